@@ -44,6 +44,7 @@ func main() {
 	noEvidence := flag.Bool("no-evidence", false, "do not write evidence (used for mutant runs)")
 	explain := flag.String("explain", "", "re-run the obligation recorded in a violation file")
 	refactor := flag.String("refactor", "", "apply a behaviour-preserving transformation (rename-locals|shift-lines|swap-operands|invert-if|hoist-init|wrap-else) to the scratch copy given by -repo and exit")
+	mutGen := flag.Bool("mutgen", false, "print the systematic mutation sites of the functions the rules analyse (JSON) and exit")
 	mutOnly := flag.Bool("mutants", false, "only run the mutant catalogue of the property and report checker sensitivity")
 	flag.Parse()
 	seed, _ := strconv.ParseInt(envOr("VERIF_SEED", "0"), 10, 64)
@@ -61,6 +62,9 @@ func main() {
 	}
 	if *explain != "" {
 		os.Exit(doExplain(*explain, *repo, *root))
+	}
+	if *mutGen {
+		os.Exit(mutgen(*repo, *root))
 	}
 	if *prop == "" {
 		fmt.Println("usage: mcpcheck -property Cxx [-tier quick|thorough]")
